@@ -33,6 +33,7 @@ def run(ck, progs):
         ck.config = cfg
         ck.guard("C05-a EXHAUSTIVE reset", lambda: c05a(ck, prog))
         ck.guard("C05-b MUSTPASS session loop", lambda: c05b(ck, prog))
+        ck.guard("C05-c GUARD stale buffer bytes", lambda: c05c(ck, prog))
     ck.config = None
 
 
@@ -280,3 +281,21 @@ def _one(f, pat, what):
     if len(cs) != 1:
         raise AnchorLost("expected one call of %s in the session loop, found %d" % (what, len(cs)))
     return cs[0]
+
+
+def c05c(ck, prog):
+    """`what an earlier request left behind does not influence the next one`: Request::clear wipes the buffer only up to the first
+    NUL, so bytes of earlier requests stay in it. Everything the parser looks at must therefore be bounded by the count
+    received *for this request* -- in particular the search for the end of the head (the C06-c clause, re-evaluated here:
+    its violation is a leak between requests of one connection)."""
+    R = "C05-c GUARD stale buffer bytes"
+    from . import C06
+    sub = type(ck)(ck.prop, ck.tier)
+    sub.config = ck.config
+    C06.c06c(sub, prog)
+    n = 0
+    for o in sub.obs:
+        if "within-received-bytes" in o["key"] or o["key"] == "floor:head-end searches":
+            n += 1
+            ck.ob(R, o["key"], o["ok"], o["where"], o["detail"], how=o["how"], nontrivial=o.get("nontrivial", True))
+    ck.floor(R, "buffer searches checked", n, 1)
